@@ -14,8 +14,8 @@ RULE = ('generated LALR grammars (nullable starts, ignored terminals, shaping fe
         'P(s,e) = parse(text[s:e]) succeeds, is non-empty and its first/last tokens touch s and e; expected matches = leftmost start, '
         'longest end, resume at end; each value must equal parse(text[s:e]) shifted into full-text coordinates (line/column recomputed '
         'from offsets). Non-trivial = text with >= 1 match and >= 1 skipped region; distinct = (grammar, lexer, representation, text, window)')
-ASSUMPTIONS = ['terminals are prefix-free fixed strings (class S of the design): tokenisation of a snippet equals tokenisation inside the full text',
-               'regexp/keyword terminals, where maximal munch on the longer text legitimately differs from lexing the snippet alone, are not generated']
+ASSUMPTIONS = ['main phases: terminals are prefix-free fixed strings (class S of the design): tokenisation of a snippet equals tokenisation inside the full text, so the property holds to the letter',
+               'class R phase (regexp/keyword terminals, hand-written skeleton grammars): maximal munch on the longer text legitimately differs from lexing the snippet alone, so the expectation is rebuilt from the interactive parser API (longest token prefix from each start after which the parser can finish)']
 
 O = gramgen.Opts(terms='tok', max_rules=4, shaping=True, ignore=True, acyclic=True)
 O_NN = gramgen.Opts(terms='tok', max_rules=3, shaping=True, ignore=True, acyclic=True, nonnull=True)
@@ -111,6 +111,80 @@ def check(case, ctx):
                 ctx.nontrivial([g, lx, use_bytes, buf, a, b], sample={'grammar': g, 'buffer': buf, 'window': [a, b], 'lexer': lx, 'matches': expected})
 
 
+# ------------------------------------------------------------------ class R: regexp / keyword terminals
+# Maximal munch on the full text can legitimately differ from lexing a snippet alone, so "parses" means: the tokens the parser's
+# own lexer produces from that start, in context, up to a point where the parser can finish.  The expectation is rebuilt from
+# the public interactive API (independent of _scan's start search, resume positions, line counting and token replay).
+SKEL_R = [
+    ('start: NAME "=" NUM | NUM "+" NUM | "if" NAME\nNAME: /[a-z][a-z0-9]*/\nNUM: /[0-9]+/\n%ignore " "\n', ['x', 'x1', 'if', 'iff', '1', '22', '=', '+', ' ', 'q=', '9+9', 'if x']),
+    ('start: item+\nitem: KEY ":" VAL | "[" start "]"\nKEY: /[a-z]+/\nVAL: /[0-9]+|[a-z]+/\n%ignore /[ ]+/\n', ['a', 'ab', ':', '1', '[', ']', ' ', 'a:1', 'b:c', '[a:1]', '::']),
+    ('start: "begin" stmt* "end"\nstmt: WORD ";" | "begin" stmt* "end"\nWORD: /[a-z]+/\n%ignore " "\n', ['begin', 'end', 'x', ';', ' ', 'beginx', 'endend', 'begin end', 'x;']),
+]
+
+
+@st.composite
+def r_cases(draw):
+    g, words = draw(st.sampled_from(SKEL_R))
+    texts = [''.join(draw(st.lists(st.sampled_from(words), min_size=1, max_size=7))) for _ in range(4)]
+    return {'gtext': g, 'texts': texts, 'lexer': draw(st.sampled_from(['contextual', 'contextual', 'basic']))}
+
+
+def longest_from(p, text, s):
+    """(start, end) of the longest prefix of the token stream from offset s after which the parser can finish, or None"""
+    ip = p.parse_interactive(text[s:])
+    toks = []; best = None
+    try:
+        for tok in ip.lexer_thread.lex(ip.parser_state):
+            ip.feed_token(tok); toks.append(tok)
+            c = ip.copy()
+            try:
+                c.feed_eof(tok); best = len(toks)
+            except UnexpectedInput:
+                pass
+    except UnexpectedInput:
+        pass
+    if not best or toks[0].start_pos != 0:
+        return None          # nothing parses here, or s lies in ignored text (the match belongs to a later start)
+    return (s + toks[0].start_pos, s + toks[best - 1].end_pos)
+
+
+@blame_lark
+def check_r(case, ctx):
+    g = case['gtext']
+    p = Lark(g, parser='lalr', lexer=case['lexer'], propagate_positions=True)
+    for w in case['texts']:
+        expected = []; pos = 0
+        while pos < len(w):
+            m = None
+            for s_ in range(pos, len(w)):
+                m = longest_from(p, w, s_)
+                if m: break
+            if not m: break
+            expected.append(m); pos = m[1]
+        got = [tuple(m.range) for m in p.scan(w)]
+        if got != expected:
+            raise Violation('scan() ranges differ from the leftmost-longest matches rebuilt with the interactive parser', grammar=g, text=w,
+                            lexer=case['lexer'], got=got, want=expected)
+        for m in p.scan(w):
+            s_, e_ = m.range
+            # value: the same tokens replayed through a fresh interactive parser
+            ip = p.parse_interactive(w[s_:])
+            toks = []
+            try:
+                for tok in ip.lexer_thread.lex(ip.parser_state):
+                    if s_ + tok.end_pos > e_: break
+                    ip.feed_token(tok); toks.append(tok)
+            except UnexpectedInput:
+                pass          # the text after the match need not lex in this context
+            want = norm(ip.feed_eof(toks[-1]), shift=s_, buf=w)
+            if norm(m.value) != want:
+                raise Violation('match value differs from parsing the matched tokens (full-text coordinates)', grammar=g, text=w, lexer=case['lexer'],
+                                range=[s_, e_], got=str(norm(m.value))[:300], want=str(want)[:300])
+        ctx.label('classR:matches:%d' % min(len(expected), 4))
+        if expected and sum(e - s_ for s_, e in expected) < len(w):
+            ctx.nontrivial([g, case['lexer'], w, 'R'], sample={'grammar': g, 'text': w, 'lexer': case['lexer'], 'matches': expected})
+
+
 PADS = ['', '', 'a', '\n', 'b\n', 'q ', ' ', 'x\n\n']
 
 
@@ -141,4 +215,5 @@ def cases(draw, o):
 def phases(tier):
     k = 10 if tier == 'thorough' else 1
     return [Phase('scan', 'hypothesis', strategy=cases(O), max_examples=12000 * k),
-            Phase('scan-nonnull', 'hypothesis', strategy=cases(O_NN), max_examples=12000 * k)]
+            Phase('scan-nonnull', 'hypothesis', strategy=cases(O_NN), max_examples=12000 * k),
+            Phase('scan-regexp-keyword-terminals', 'hypothesis', strategy=r_cases(), max_examples=6000 * k, check=check_r)]
